@@ -93,8 +93,10 @@ def pick(scripts, n_interesting, n_other, seed):
     def interesting(s):
         # the model predicts a loss/duplicate, or Close/Shutdown is issued while a storage write is held
         # (the schedule behind the repaired queue-abandon defect: it must stay covered in every seed)
+        # ... or two storage writes overlap (a flush is encoded/written while another write is still held)
         return (s["predicts_loss"] or s["predicts_dup"]
-                or any(c["c"] in ("close", "shutdown") and c["pend"] for c in s["hist"]))
+                or any(c["c"] in ("close", "shutdown") and c["pend"] for c in s["hist"])
+                or any(len(c["pend"]) >= 2 for c in s["hist"]))
     def rescue(s):
         # a storage write fails, storage recovers and a maintenance tick runs with the failure flag set while the
         # rotated WAL file is old enough to be replayed: the schedules in which "retry or WAL replay" must work.
